@@ -1,6 +1,7 @@
 import LimnoriaModel.C18.Model
 import LimnoriaModel.C18.Plugin
 import LimnoriaModel.C18.Heap
+import LimnoriaModel.C18.HeapShapes
 import LimnoriaModel.C18.Loop
 import LimnoriaModel.Driver.Core
 namespace C18
@@ -191,6 +192,18 @@ def stepLine (st : St) : List String → Option (St × String)
     match Heap.heappop st.hp with
     | none => some (st, "E")
     | some (e, h) => some ({ st with hp := h }, toString e.t ++ "/" ++ toString e.rid ++ "|" ++ encHeap h)
+  | ["hfragile", n, k, off] => do
+    -- the shapes on which the sift-down-only shortcut of removeEvent breaks the heap: `k` of them,
+    -- evenly spread, starting at `off` (k = 0: all)
+    let n' ← n.toNat?
+    let k' ← k.toNat?
+    let off' ← off.toNat?
+    let all := Heap.fragile n'
+    let stride := if k' = 0 then 1 else max 1 (all.length / k')
+    let pick := (List.range all.length).zip all |>.filter (fun p => k' = 0 || (p.1 + off') % stride = 0) |>.map (·.2)
+    let pick := if k' = 0 then pick else pick.take k'
+    pure (st, toString all.length ++ "|" ++ ";".intercalate (pick.map fun (o, r) =>
+      ",".intercalate (o.map toString) ++ "/" ++ toString r))
   | ["hify"] => some ({ st with hp := Heap.heapify st.hp }, encHeap (Heap.heapify st.hp))
   | ["pnew", t] => do
     let t' ← t.toNat?
